@@ -119,7 +119,95 @@ def interval(eng, res, rule="R-INTERVAL"):
     return n
 
 
+LAWS = {
+    # class of the scipy generator -> hook -> (parameter names in order, documented formula)
+    "flory_schulz_gen": {"_pmf": (["k", "a"], "a**2 * k * (1 - a)**(k - 1)")},
+    "schulz_zimm_gen": {"_pmf": (["M", "z", "Mn"], "z**(z + 1) / gamma(z + 1) * M**(z - 1) / Mn**z * exp(-z * M / Mn)")},
+    "log_normal_gen": {
+        "_pdf": (["m", "M", "D"], "1 / (m * sqrt(2 * pi * log(D))) * exp(-((log(m / M) + log(D) / 2)**2) / (2 * log(D)))"),
+        "_get_support": (["M", "D"], "(0, inf)"),
+        # derived from the density: log(m / M) + log(D) / 2 is normal with variance log(D)
+        "_cdf": (["m", "M", "D"], "ndtr((log(m / M) + log(D) / 2) / sqrt(log(D)))"),
+        "_ppf": (["q", "M", "D"], "M * exp(sqrt(log(D)) * ndtri(q) - log(D) / 2)"),
+    },
+}
+REQUIRED_HOOKS = {"flory_schulz_gen": {"_pmf"}, "schulz_zimm_gen": {"_pmf"}, "log_normal_gen": {"_pdf", "_get_support"}}
+
+
+def law_formulas(eng, res, rule="R-LAW-FORMULA"):
+    """The hand-written laws are the documented formulas (compared modulo associativity / commutativity)."""
+    from ..acnorm import canon, parse, show as ashow
+
+    n = 0
+    for gname, hooks in LAWS.items():
+        ci = eng.prog.classes.get(gname)
+        if ci is None:
+            raise AnalysisError(f"law class {gname} not found")
+        defined = {m for m in ci.methods if m.startswith("_") and not m.startswith("__")}
+        miss = REQUIRED_HOOKS[gname] - defined
+        res.ob(rule, ci.qualname, f"{gname}:hooks-present", f"{gname} defines its law through {sorted(REQUIRED_HOOKS[gname])}", f"{ci.module.relpath}:{ci.node.lineno}", not miss, f"missing {sorted(miss)}")
+        unknown = defined - set(hooks)
+        if unknown:
+            raise AnalysisError(f"{gname} defines the additional law hook(s) {sorted(unknown)}: their agreement with the density is outside what this analysis decides")
+        for h in sorted(defined):
+            f = ci.method(h)
+            pnames, formula = hooks[h]
+            n += 1
+            res.unit(f)
+            params = f.params[1:]
+            if len(params) != len(pnames):
+                res.ob(rule, f, f"{gname}:{h}", f"{h} has the documented parameters {pnames}", f.node, False, f"parameters {params}")
+                continue
+            names = {p: f"p{i}" for i, p in enumerate(params)}
+            exp_names = {p: f"p{i}" for i, p in enumerate(pnames)}
+            # inline straight-line local assignments
+            env = {}
+            ret = None
+            ok_shape = True
+            for st in f.node.body:
+                if isinstance(st, ast.Expr) and isinstance(st.value, ast.Constant):
+                    continue
+                if isinstance(st, ast.Assign) and len(st.targets) == 1 and isinstance(st.targets[0], ast.Name):
+                    env[st.targets[0].id] = st.value
+                elif isinstance(st, ast.Return) and st.value is not None:
+                    ret = st.value
+                else:
+                    ok_shape = False
+            if not ok_shape or ret is None:
+                raise AnalysisError(f"{f.qualname}: body is not straight-line assignments followed by a return")
+            try:
+                got = canon(ret, names, env)
+                want = parse(formula, exp_names)
+            except AnalysisError as exc:
+                res.ob(rule, f, f"{gname}:{h}", f"{h} is the documented formula {formula}", f.node, False, f"cannot be normalised: {exc}")
+                continue
+            res.ob(rule, f, f"{gname}:{h}", f"{h}({', '.join(pnames)}) = {formula}", f.node, got == want, f"code computes {ashow(got)[:200]}")
+    # the scipy objects are built without altering the support (a / b) or anything but the name
+    for ci in c09.families(eng):
+        init = ci.method("__init__")
+        for c in calls(init):
+            tg = eng.resolve_call(init, c)
+            if any(getattr(t, "name", "") in LAWS for t in tg):
+                n += 1
+                kws = sorted(k.arg or "**" for k in c.keywords)
+                res.ob(rule, init, f"{ci.name}:law-object", "the law object is created with its name only (no truncated support a / b, no shapes override)", c,
+                       set(kws) <= {"name", "longname"} and not c.args, f"keywords {kws}")
+    # families without an own draw must not override it at all (their draw is the base class's rvs on the frozen object)
+    for ci in c09.families(eng):
+        own = ci.method("draw_mw")
+        if own is None:
+            continue
+        rv = calls(own, "rvs")
+        rets = [r for r in own_nodes(own.node) if isinstance(r, ast.Return) and r.value is not None]
+        ok = len(rv) == 1 and len(rets) == 1 and rets[0].value is rv[0]
+        n += 1
+        res.ob(rule, own, f"{ci.name}:draw-is-sample", "a family's draw returns the sample of its law unchanged (no clamping, rounding or post-processing)", own.node, ok,
+               f"returns {src(rets[0].value)[:80] if rets else None}")
+    return n
+
+
 def check(eng, res):
+    res.doc("R-LAW-FORMULA", "hand-written mass / density functions equal the documented formulas (AC normal form); law objects built with their name only; draws returned unchanged")
     res.doc("R-DRAW-PARAMS", "sibling agreement: rvs, both cdf calls and pmf/pdf receive identical shape parameters on the same object")
     res.doc("R-INTERVAL", "interval argument: cdf(value) − cdf(previous); RememberAdd.__iadd__ stores the value read before the addition")
     res.doc("R-UNKNOWN-REJECT", "unknown distribution names cannot fall through to a default")
@@ -130,6 +218,8 @@ def check(eng, res):
     res.floor("R-DRAW-PARAMS", n, 3)
     n = interval(eng, res)
     res.floor("R-INTERVAL", n, 4)
+    n = law_formulas(eng, res)
+    res.floor("R-LAW-FORMULA", n, 7)
     c15.unknown_reject(eng, res)
     n = c09.dist_table(eng, res)
     res.floor("R-DIST-TABLE", n, 6)
